@@ -687,65 +687,89 @@ func (m *RWMutex) RUnlock() {
 // purposes is legal, so both ends are explored, deterministically.
 type Map struct {
 	mu   sync.Mutex
-	keys []any
-	m    map[any]any
+	keys []*mapEntry // insertion order; the first len(keys) elements of a backing array never change
+	m    map[any]*mapEntry
 }
+
+type mapEntry struct {
+	k       any
+	v       atomic.Pointer[any]
+	deleted atomic.Bool
+}
+
+func (e *mapEntry) load() any { return *e.v.Load() }
 
 func (m *Map) Load(k any) (any, bool) {
 	m.mu.Lock()
 	defer m.mu.Unlock()
-	v, ok := m.m[k]
-	return v, ok
+	if e, ok := m.m[k]; ok {
+		return e.load(), true
+	}
+	return nil, false
 }
 func (m *Map) Store(k, v any) {
 	m.mu.Lock()
 	defer m.mu.Unlock()
 	if m.m == nil {
-		m.m = map[any]any{}
+		m.m = map[any]*mapEntry{}
 	}
-	if _, ok := m.m[k]; !ok {
-		m.keys = append(m.keys, k)
+	if e, ok := m.m[k]; ok {
+		e.v.Store(&v)
+		return
 	}
-	m.m[k] = v
+	e := &mapEntry{k: k}
+	e.v.Store(&v)
+	m.m[k] = e
+	m.keys = append(m.keys, e)
 }
 func (m *Map) LoadOrStore(k, v any) (any, bool) {
 	m.mu.Lock()
 	defer m.mu.Unlock()
 	if m.m == nil {
-		m.m = map[any]any{}
+		m.m = map[any]*mapEntry{}
 	}
-	if old, ok := m.m[k]; ok {
-		return old, true
+	if e, ok := m.m[k]; ok {
+		return e.load(), true
 	}
-	m.keys = append(m.keys, k)
-	m.m[k] = v
+	e := &mapEntry{k: k}
+	e.v.Store(&v)
+	m.m[k] = e
+	m.keys = append(m.keys, e)
 	return v, false
 }
 func (m *Map) LoadAndDelete(k any) (any, bool) {
 	m.mu.Lock()
-	v, ok := m.m[k]
+	e, ok := m.m[k]
 	m.mu.Unlock()
-	if ok {
-		m.Delete(k)
+	if !ok {
+		return nil, false
 	}
-	return v, ok
+	v := e.load()
+	m.Delete(k)
+	return v, true
 }
 func (m *Map) Delete(k any) {
 	m.mu.Lock()
 	defer m.mu.Unlock()
-	if _, ok := m.m[k]; ok {
+	if e, ok := m.m[k]; ok {
+		e.deleted.Store(true)
 		delete(m.m, k)
 		for i, x := range m.keys {
-			if x == k {
+			if x == e {
+				// a new array: iterations in progress keep their view
 				m.keys = append(m.keys[:i:i], m.keys[i+1:]...)
 				break
 			}
 		}
 	}
 }
+
+// Range visits the entries in insertion order, rotated by a seeded amount half of the time
+// (sync.Map promises no order). No copy and no lock per element: Store only appends beyond
+// len(keys) and Delete builds a new array.
 func (m *Map) Range(f func(k, v any) bool) {
 	m.mu.Lock()
-	keys := append([]any(nil), m.keys...)
+	keys := m.keys[:len(m.keys):len(m.keys)]
 	m.mu.Unlock()
 	rot := 0
 	if w := cur.Load(); w != nil && len(keys) > 1 && !w.inDriver.Load() {
@@ -755,11 +779,11 @@ func (m *Map) Range(f func(k, v any) bool) {
 		}
 	}
 	for i := range keys {
-		k := keys[(i+rot)%len(keys)]
-		m.mu.Lock()
-		v, ok := m.m[k]
-		m.mu.Unlock()
-		if ok && !f(k, v) {
+		e := keys[(i+rot)%len(keys)]
+		if e.deleted.Load() {
+			continue
+		}
+		if !f(e.k, e.load()) {
 			return
 		}
 	}
@@ -861,4 +885,19 @@ func (w *World) RawHistory() []Rec {
 	w.mu.Lock()
 	defer w.mu.Unlock()
 	return append([]Rec(nil), w.hist...)
+}
+
+// Goid returns the runtime id of the calling goroutine (parsed from its stack header; a few
+// microseconds — for rare bookkeeping only: who is dialling).
+func Goid() uint64 {
+	var buf [64]byte
+	n := runtime.Stack(buf[:], false)
+	var id uint64
+	for _, c := range buf[len("goroutine "):n] {
+		if c < '0' || c > '9' {
+			break
+		}
+		id = id*10 + uint64(c-'0')
+	}
+	return id
 }
